@@ -1,6 +1,8 @@
 import MpsProofs.Handler
+import MpsProps.HandlerSrc
 import MpsProofs.Order
 import MpsProps.C07TwoParty
+import MpsProps.C07TwoPartySystem
 import MpsProofs.System
 /-
   C07 — Outcome is independent of delivery order, duplication and early arrival (handler model).
